@@ -2,12 +2,16 @@
 
 Proved (Lean): the reported look-ahead (closed form, all histories, exact in ms, = CELT overlap + delay buffer),
 the Princen-Bradley defect of the regenerated window (<= 2^-23), MDCT/IMDCT alias form and time-domain alias
-cancellation over the reals for every frame size and input, TDAC with the real window table; channel identity of the
+cancellation over the reals for every frame size and input, TDAC with the real window table; clt_mdct_forward_c /
+clt_mdct_backward_c (fold, rotations, N/4 complex DFT, mirror) over the reals = textbook MDCT / IMDCT + overlap-add for
+every N = 4Q and overlap = 4q <= N/2, and forward -> backward on consecutive frames = identity; channel identity of the
 multistream routing (the channel the encoder feeds a stream side from = the channel the decoder writes it to), for
-every layout and for every channel of the surround layouts.
+every layout and for every channel of the surround layouts, composed with C10's routing theorem into
+channel_identity_pcm (every created encoder / decoder pair).
 Tied (S3): OPUS_GET_LOOKAHEAD on real encoders (single / multistream / projection, all Fs x application x channels,
 also after OPUS_SET_APPLICATION) = model, exactly; clt_mdct_forward_c / clt_mdct_backward_c = Lean Float model
-(1e-4), Lean fold/DFT model = textbook MDCT of the theorem (1e-9); the copy_channel_in calls of the real
+(1e-4), Lean fold/DFT models = textbook MDCT / IMDCT formulas of the theorems (1e-9), opus_fft_c = naive DFT (1e-4);
+the copy_channel_in calls of the real
 opus_multistream_encode_native = model `encoderCalls` (surround layouts + random encoder-valid layouts), exactly.
 Searched (S4, implementation only): TDAC on the real MDCT code; measured delay, SNR, level, per-band energy error,
 channel identity of real encoder+decoder round trips.  Every round trip of the pool stream is compared, metric by
@@ -25,14 +29,14 @@ if __name__ == '__main__':
 import common
 
 LEAN_MODULES = ['OpusProps.C04']
-GEN = ['Window', 'LayoutTables']      # LayoutTables: C10's extractor (vorbis_mappings), used read-only
+GEN = ['Window', 'LayoutTables', 'MappingMatrices']   # the last two: C10's extractors (OpusProps.C10 is imported read-only)
 SOURCES = ['src/opus_encoder.c', 'src/opus_decoder.c', 'src/opus_multistream_encoder.c', 'src/opus_multistream_decoder.c',
            'src/opus_projection_encoder.c', 'src/opus_projection_decoder.c', 'src/mapping_matrix.c',
            'celt/celt_encoder.c', 'celt/celt_decoder.c', 'celt/mdct.c', 'celt/mdct.h', 'celt/modes.c', 'celt/modes.h',
            'celt/static_modes_float.h', 'celt/bands.c', 'celt/kiss_fft.c', 'include/opus_defines.h']
 RULE = ('look-ahead: exhaustive over kind x Fs x application x channels (+ set-application), exact; MDCT: seeded vectors '
-        '(noise, sinusoid+noise, impulse trains) for all 4 shifts, relative tolerance 1e-4 (code vs model) and 1e-9 (model vs '
-        'textbook definition); round trips: delay grid exhaustive over Fs x channels x application x 9 frame durations x '
+        '(noise, sinusoid+noise, impulse trains) for all 4 shifts, forward / backward / FFT alone, relative tolerance 1e-4 (code vs '
+        'model, kiss_fft vs DFT) and 1e-9 (model vs textbook definition); round trips: delay grid exhaustive over Fs x channels x application x 9 frame durations x '
         'forced mode, fidelity / channel-identity templates drawn once from the configuration space (Fs, channels, '
         'application, bandwidth, bitrate >= floor, frame duration, complexity, VBR/CVBR/CBR, sample format, signal family, '
         'stereo relation); per template VERIF_SEED picks one of 16 calibrated pool signal seeds (every metric compared with '
@@ -45,7 +49,10 @@ REQUIRED_THEOREMS = ['OpusProps.C04.lookahead_eq', 'OpusProps.C04.encoder_exists
                      'OpusProps.C04.init_fields_match_code', 'OpusProps.C04.window_power_complementary',
                      'OpusProps.C04.window_is_table', 'OpusProps.C04.window_monotone', 'OpusProps.C04.mdct_alias_form',
                      'OpusProps.C04.mdct_tdac', 'OpusProps.C04.celt_window_tdac', 'OpusProps.C04.channel_identity',
-                     'OpusProps.C04.stream_side_identity', 'OpusProps.C04.surround_channel_identity']
+                     'OpusProps.C04.stream_side_identity', 'OpusProps.C04.surround_channel_identity',
+                     'OpusProps.C04.channel_identity_pcm', 'OpusProps.C04.mdct_forward_code', 'OpusProps.C04.fft_is_dft',
+                     'OpusProps.C04.mdct_backward_code', 'OpusProps.C04.mdct_code_roundtrip',
+                     'OpusProps.C04.celt_code_roundtrip_window']
 NOT_COVERED = [
     'SNR of the decoded signal against the delayed input (numeric; only searched: within 3 dB of the unchanged tree\'s value for the same line)',
     'per-band energy error and overall level (gain) of the decoded signal (only searched against the calibrated reference values)',
@@ -55,22 +62,32 @@ NOT_COVERED = [
     'layer (stereo coding inside a stream, the projection matrices applied to audio): only searched (projection of every '
     'output channel on every input channel); the routing theorems cover which channel feeds / receives which stream side',
     'equality of the three sample formats\' fidelity (only searched; exact format equivalence is property C13)',
-    'the equivalence of the code\'s fold -> N/4 FFT -> post-rotation structure with the textbook MDCT is tied numerically '
-    '(Float model vs. definition, 1e-9; code vs. model, 1e-4), not proved; float rounding of the MDCT is not formalised',
+    'the MDCT algorithm theorems are about the real-number transcription (`forwardR`/`backwardR`) of celt/mdct.c with the FFT '
+    'taken as the DFT it computes; the C functions, the kiss_fft butterflies and the Float twins of the transcription are tied '
+    'numerically (1e-4 / 1e-4 / 1e-9), and float rounding of the MDCT is not formalised; overlap must be a multiple of 4 '
+    '(for other values the C fold loop reads in[-1]; no CELT mode has such an overlap)',
     'quantisation (PVQ, SILK NSQ), band energy coding, resamplers, stereo prediction: not modelled at all',
 ]
 ASSUMPTIONS = ['reference values in tools/calibration_c04.json were measured on the unchanged tree for 16 pool signal seeds per template; '
                'a round trip may deviate from the reference of the same line by the margin of each metric (3 dB SNR, 1.5 dB gain / '
                'level, 4 dB per-band energy, 0.01 ms or 0.3 sample delay offset, 0.1 cross-talk, 0.1 correlation peak) or by a '
                'quarter of the template\'s seed-to-seed spread; a signal outside the seeded generator families is not covered',
-               'the VOIP application\'s adaptive high-pass shifts the measured delay of low-frequency noise by up to 0.07 ms on the '
-               'unchanged tree; the property\'s 0.1 ms allowance (stated for the speech layer\'s resamplers) is applied to it too',
+               'measured delay vs. reported look-ahead: the encoder high-pass filters its input — hp_cutoff (src/opus_encoder.c, 2nd-order, '
+               'cutoff >= 60 Hz) for application VOIP, dc_reject (3 Hz) otherwise — and a high-pass has a phase lead (negative phase delay) '
+               'at low frequencies.  Verified on the unchanged tree (8 kHz, CELT-only, pure tones): VOIP output leads by 11.90 / 2.77 / '
+               '0.42 / 0.10 samples at 100 / 200 / 500 / 1000 Hz, the phase delay of the hp_cutoff biquad at 60 Hz predicts 11.91 / 2.77 / '
+               '0.43 / 0.10; AUDIO leads by 0.42 / 0.09 / 0.00 samples (3 Hz filter).  On the seeded band-limited noise and sweeps the '
+               'cross-correlation peak therefore sits up to 0.07 ms (VOIP) before the reported look-ahead; the property\'s 0.1 ms '
+               'allowance (worded for the speech layer\'s resamplers) is applied to application VOIP too, CELT-only AUDIO / LOWDELAY '
+               'is held to 0.5 sample (observed <= 0.12 sample)',
                'the analysis window starts 200 ms into the stream (start-up transients of the codec are excluded)']
 LEVEL_TEXT = ('partial proof: kernel-checked theorems for the reported look-ahead (closed form for every creatable encoder and '
               'every set-application/encode/reset history, exact 2.5/6.5 ms, = CELT overlap + delay buffer, equal to the values '
               'regenerated from the code), for the power-complementarity of the regenerated CELT window (<= 2^-23) and for MDCT '
               'time-domain alias cancellation over the reals (alias form from the cosine orthogonality sums; overlap-add '
-              'returns the input exactly for a Princen-Bradley window and to 2^-23 relative with the real table) and for channel '
+              'returns the input exactly for a Princen-Bradley window and to 2^-23 relative with the real table), for the algorithm '
+              'of celt/mdct.c (window+fold, pre-rotation, N/4 complex DFT, post-rotation, TDAC mirror = MDCT / IMDCT + overlap-add, '
+              'forward -> backward = identity, all N = 4Q and overlaps 4q <= N/2) and for channel '
               'identity of the multistream routing (encoder channel selection and decoder routing are inverse to each other; '
               'every channel of the surround layouts); the look-ahead model, the encoder routing model and a Float transcription of '
               'clt_mdct_forward_c/backward_c are tied to the code (exact / exact / 1e-4); every '
